@@ -722,6 +722,17 @@ impl SerializableValue {
     }
 
     pub fn from_value(value: &Value, heap: &Heap) -> Result<SerializableValue> {
+        Self::from_value_at(value, heap, false)
+    }
+
+    /// A value captured by a function: it will be written into that function's source,
+    /// where a captured function appears as `((args) => body)` and a body that is a
+    /// via / into / where chain needs parentheses of its own
+    pub(crate) fn from_captured_value(value: &Value, heap: &Heap) -> Result<SerializableValue> {
+        Self::from_value_at(value, heap, true)
+    }
+
+    fn from_value_at(value: &Value, heap: &Heap, captured: bool) -> Result<SerializableValue> {
         match value {
             Value::Number(n) => Ok(SerializableValue::Number(*n)),
             Value::Bool(b) => Ok(SerializableValue::Bool(*b)),
@@ -730,7 +741,7 @@ impl SerializableValue {
                 let list = p.reify(heap).as_list()?;
                 let serialized_list = list
                     .iter()
-                    .map(|v| SerializableValue::from_value(v, heap))
+                    .map(|v| SerializableValue::from_value_at(v, heap, captured))
                     .collect::<Result<Vec<SerializableValue>>>()?;
                 Ok(SerializableValue::List(serialized_list))
             }
@@ -742,7 +753,12 @@ impl SerializableValue {
                 let record = p.reify(heap).as_record()?;
                 let serialized_record = record
                     .iter()
-                    .map(|(k, v)| Ok((k.to_string(), SerializableValue::from_value(v, heap)?)))
+                    .map(|(k, v)| {
+                        Ok((
+                            k.to_string(),
+                            SerializableValue::from_value_at(v, heap, captured)?,
+                        ))
+                    })
                     .collect::<Result<IndexMap<String, SerializableValue>>>()?;
                 Ok(SerializableValue::Record(serialized_record))
             }
@@ -753,7 +769,9 @@ impl SerializableValue {
                 let serializable_scope: IndexMap<String, SerializableValue> = lambda
                     .scope
                     .iter()
-                    .map(|(k, v)| SerializableValue::from_value(v, heap).map(|sv| (k.clone(), sv)))
+                    .map(|(k, v)| {
+                        SerializableValue::from_captured_value(v, heap).map(|sv| (k.clone(), sv))
+                    })
                     .collect::<Result<IndexMap<String, SerializableValue>>>()?;
 
                 // Generate the body with inlined scope values
@@ -761,6 +779,11 @@ impl SerializableValue {
                     &lambda.body,
                     &serializable_scope,
                 );
+                let body_with_inlined_scope = if captured {
+                    crate::ast_to_source::lambda_body_to_source(&lambda.body, body_with_inlined_scope)
+                } else {
+                    body_with_inlined_scope
+                };
 
                 Ok(SerializableValue::Lambda(SerializableLambdaDef {
                     name: lambda.name.clone(),
@@ -1261,7 +1284,7 @@ impl Value {
                     .scope
                     .iter()
                     .filter_map(|(k, v)| {
-                        SerializableValue::from_value(v, heap)
+                        SerializableValue::from_captured_value(v, heap)
                             .ok()
                             .map(|sv| (k.clone(), sv))
                     })
